@@ -4,6 +4,7 @@ import (
 	"fmt"
 	"go/ast"
 	"go/types"
+	"strings"
 
 	"verifcheck/core"
 )
@@ -215,4 +216,86 @@ func isFreshBase(info *types.Info, x ast.Expr) bool {
 		return true
 	}
 	return false
+}
+
+// runNoWaitUnderLock (C19): sync.WaitGroup.Wait is not called while the caller holds a mutex that a goroutine counted by
+// that wait group acquires: the goroutine blocks on the mutex, Wait blocks on the goroutine.
+func runNoWaitUnderLock(c *core.Ctx, pkgs []string, floor int) {
+	n := 0
+	for _, rel := range pkgs {
+		funcs := c.P.FuncsIn(rel)
+		// goroutine bodies per wait-group field: functions that call <x>.wg.Done()
+		workers := map[string][]*core.FuncInfo{}
+		for _, h := range funcs {
+			if h.Body == nil {
+				continue
+			}
+			for _, e := range h.Graph().Events {
+				if (e.Kind == core.EvCall || e.Kind == core.EvDefer) && core.CalleeName(e) == "sync.(*WaitGroup).Done" {
+					if fp := core.RecvFieldOf(e); fp != "" {
+						workers[fp] = append(workers[fp], h)
+					}
+				}
+			}
+		}
+		for _, g := range funcs {
+			if g.Body == nil {
+				continue
+			}
+			var waits []*core.Event
+			for _, e := range g.Graph().Events {
+				if e.Kind == core.EvCall && core.CalleeName(e) == "sync.(*WaitGroup).Wait" && core.RecvFieldOf(e) != "" {
+					waits = append(waits, e)
+				}
+			}
+			if len(waits) == 0 {
+				continue
+			}
+			classOf := map[string]string{}
+			for _, op := range g.LockOps() {
+				classOf[op.Key] = strings.TrimRight(strings.TrimSuffix(strings.TrimSuffix(op.Class, "#W"), "#R"), "#")
+			}
+			heldAt := map[*core.Event]map[string]bool{}
+			g.ExploreLocks(func(e *core.Event, st core.LockState) {
+				for _, w := range waits {
+					if w != e {
+						continue
+					}
+					if heldAt[e] == nil {
+						heldAt[e] = map[string]bool{}
+					}
+					for _, h := range st.Held() {
+						key := h
+						if i := strings.LastIndex(h, "#"); i >= 0 {
+							key = h[:i]
+						}
+						if cl := classOf[key]; cl != "" {
+							heldAt[e][cl] = true
+						} else if cl := classOf[h]; cl != "" {
+							heldAt[e][cl] = true
+						}
+					}
+				}
+			})
+			for i, w := range waits {
+				n++
+				bad := ""
+				for _, h := range workers[core.RecvFieldOf(w)] {
+					set := append([]*core.FuncInfo{h}, h.Lits...)
+					for _, x := range set {
+						for _, op := range x.LockOps() {
+							cl := strings.TrimSuffix(strings.TrimSuffix(op.Class, "#W"), "#R")
+							if op.Acquire && heldAt[w][cl] {
+								bad = fmt.Sprintf("%s waits for the goroutines of %s while holding %s; %s, which is counted by that wait group, acquires the same mutex @%s: if it is at that acquisition when the wait starts, both block forever", g.Name, core.RecvFieldOf(w), cl, x.Name, c.P.Pos(op.Ev.Pos()))
+							}
+						}
+					}
+				}
+				c.Check("no-wait-under-lock", fmt.Sprintf("%s/%s.Wait#%d", g.Name, core.RecvFieldOf(w), i+1), c.P.Pos(w.Pos()), bad == "", bad)
+			}
+		}
+	}
+	if floor > 0 {
+		c.Floor("WaitGroup.Wait sites on struct fields", n, floor)
+	}
 }
